@@ -508,6 +508,14 @@ fn main() {
                 let bytes = assemble(&cx.lines, cx.pad);
                 cx.emit_output(&bytes[..bytes.len() / 2]);
                 unsafe {
+                    // the harness may have been started with the signal ignored
+                    // (a background job of a non-interactive shell ignores
+                    // SIGINT): a script always dies of it
+                    libc::signal(*sig, libc::SIG_DFL);
+                    let mut set: libc::sigset_t = std::mem::zeroed();
+                    libc::sigemptyset(&mut set);
+                    libc::sigaddset(&mut set, *sig);
+                    libc::sigprocmask(libc::SIG_UNBLOCK, &set, std::ptr::null_mut());
                     libc::kill(libc::getpid(), *sig);
                     libc::pause();
                 }
